@@ -40,6 +40,7 @@ namespace sim
 		, m_server_connection(ios)
 		, m_writing_to_server(false)
 		, m_resolving(false)
+		, m_connecting(false)
 		, m_num_client_in_bytes(0)
 		, m_num_server_out_bytes(0)
 		, m_num_in_bytes(0)
@@ -209,9 +210,10 @@ namespace sim
 			, out_request.data(), out_request.size());
 		m_num_server_out_bytes += int(out_request.size());
 
-		// the name of the origin is being looked up. The request is queued and is
-		// sent once the connection has been established
-		if (m_resolving) return;
+		// the name of the origin is being looked up, or the connection to it is
+		// being established. The request is queued and is sent once the
+		// connection has been established
+		if (m_resolving || m_connecting) return;
 
 		if (!m_server_connection.is_open())
 		{
@@ -264,6 +266,7 @@ namespace sim
 	void http_proxy::open_forward_connection(const asio::ip::tcp::endpoint& target)
 	{
 		m_server_connection.open(target.protocol());
+		m_connecting = true;
 
 		std::printf("http_proxy: async_connect: %s:%d\n"
 			, target.address().to_string().c_str(), target.port());
@@ -292,6 +295,7 @@ namespace sim
 		// next client may be using the sockets already
 		if (ec == asio::error::operation_aborted) return;
 
+		m_connecting = false;
 		if (ec)
 		{
 			std::printf("http_proxy::on_connected() connection failed: %s\n", ec.message().c_str());
@@ -393,6 +397,7 @@ namespace sim
 		m_num_server_out_bytes = 0;
 		m_num_in_bytes = 0;
 		m_resolving = false;
+		m_connecting = false;
 		m_writing_to_server = false;
 		m_resolver.cancel();
 
